@@ -45,11 +45,14 @@ CONSTANTS Sessions,      \* session names (strings)
 None == "none"
 RecoveryBox == "Recovered Messages"
 Unknown == {"?"}
-SharedFlags == {"Seen", "Flagged"}
+\* the keyword "forwarded" has two spellings; a STORE that names one of them means both (internal/state/updates.go)
+Fwd == {"$Forwarded", "Forwarded"}
+ConnShared == {"Seen", "Flagged"}      \* what the connector's updates of the model carry
+SharedFlags == ConnShared \cup Fwd
 AllFlags == SharedFlags \cup {"Deleted"}
 
 \* fixed orders (strings cannot be compared by TLC)
-FlagOrder == <<"Deleted", "Flagged", "Seen">>
+FlagOrder == <<"$Forwarded", "Deleted", "Flagged", "Forwarded", "Seen">>
 AscFlags(F) == SelectSeq(FlagOrder, LAMBDA x : x \in F)
 BoxSeq == SetToSeq(Boxes)
 AscBoxes(B) == SelectSeq(BoxSeq, LAMBDA x : x \in B)
@@ -413,11 +416,12 @@ CmdAppend(s, b, m) ==
 -----------------------------------------------------------------------------
 (* STORE on positions P of the session's view                                 *)
 \*   op in add/rem/set, F a set of flags, silent, asuid
-CmdStore(s, P, op, F, silent, asuid) ==
+CmdStore(s, P, op, F0, silent, asuid) ==
   /\ Ready(s) /\ sel[s] # None /\ ~ro[s]
   /\ NoDead(s, P)
   /\ P # {} /\ P \subseteq 1..Len(snap[s])
   /\ LET b == sel[s]
+         F == IF F0 \cap Fwd # {} THEN F0 \cup Fwd ELSE F0   \* what is committed AND published
          ps == AscSeq(P)
          ms == [i \in 1..Len(ps) |-> snap[s][ps[i]].m]
          mset == SeqToSet(ms)
@@ -440,15 +444,16 @@ CmdStore(s, P, op, F, silent, asuid) ==
                             [] op = "set" -> sh]
         /\ q' = EnqueueOthers(s, <<u>>)
         /\ FinishSel(s, <<u>>, "noexp", <<>>, IF silent THEN P ELSE {}, FALSE)
-  /\ Log("Store", s, <<AscSeq(P), op, AscFlags(F), silent, asuid>>, "OK")
+  /\ Log("Store", s, <<AscSeq(P), op, AscFlags(F0), silent, asuid>>, "OK")
   /\ UNCHANGED <<uidNext, used, dead, recd, sel, ro, idle, ever>>
 
 (* commands that are refused with NO in the selected state: STORE in a read-only (EXAMINE) selection, and    *)
-(* FETCH of a body part the message does not have.  Nothing changes; the handler still flushes, and that     *)
+(* FETCH of a body part the message does not have (with .PEEK, and without: the \Seen side effect of a      *)
+(* body fetch belongs to a fetch that succeeds).  Nothing changes; the handler still flushes, and that       *)
 (* flush must not release removals either.                                                                   *)
 CmdRefused(s, kind) ==
   /\ Ready(s) /\ sel[s] # None /\ Len(snap[s]) > 0
-  /\ kind \in {"StoreRO", "FetchNoPart"}
+  /\ kind \in {"StoreRO", "FetchNoPart", "FetchBodyNoPart"}
   /\ (kind = "StoreRO" => ro[s])
   /\ FinishSel(s, <<>>, "noexp", <<>>, {}, FALSE)
   /\ Log("Refused", s, <<kind>>, "NO")
@@ -901,8 +906,10 @@ SA_Seen == {SA(o, {"Seen"}, si, FALSE) : o \in {"add", "rem"}, si \in BOOLEAN}
 SA_SeenSet == SA_Seen \cup {SA("set", {}, FALSE, FALSE), SA("set", {"Seen"}, FALSE, FALSE), SA("set", {"Deleted"}, FALSE, FALSE)}
 SA_All == {SA(o, F, si, au) : o \in {"add", "rem", "set"}, F \in {{"Seen"}, {"Deleted"}, {"Seen", "Deleted"}, {"Flagged"}}, si \in BOOLEAN, au \in BOOLEAN}
                 \cup {SA("set", {}, FALSE, FALSE)}
+                \cup {SA(o, {"$Forwarded"}, si, FALSE) : o \in {"add", "rem", "set"}, si \in BOOLEAN}
+                \cup {SA("set", {"Forwarded", "Seen"}, FALSE, FALSE), SA("add", {"Forwarded"}, FALSE, TRUE)}
 SA_Small == {SA("add", {"Deleted"}, FALSE, FALSE), SA("add", {"Seen"}, FALSE, FALSE), SA("rem", {"Seen"}, TRUE, FALSE),
-             SA("set", {"Flagged"}, FALSE, TRUE), SA("set", {}, FALSE, FALSE)}
+             SA("set", {"Flagged"}, FALSE, TRUE), SA("set", {}, FALSE, FALSE), SA("set", {"$Forwarded"}, FALSE, FALSE)}
 SA_Cross == {SA("add", {"Deleted"}, FALSE, FALSE), SA("set", {"Seen"}, FALSE, FALSE), SA("set", {"Deleted", "Flagged"}, FALSE, FALSE),
              SA("rem", {"Seen"}, FALSE, FALSE), SA("add", {"Flagged"}, TRUE, FALSE)}
 SA_CrossDel == {SA("add", {"Deleted"}, FALSE, FALSE), SA("add", {"Seen"}, FALSE, FALSE), SA("add", {"Flagged"}, FALSE, FALSE), SA("rem", {"Seen"}, FALSE, FALSE),
@@ -911,7 +918,7 @@ SA_Obs == {SA("add", {"Seen"}, FALSE, FALSE), SA("add", {"Flagged"}, FALSE, FALS
            SA("rem", {"Seen"}, FALSE, FALSE)}
 CF_None == {{}}
 CF_Seen == {{}, {"Seen"}}
-CF_All == SUBSET SharedFlags
+CF_All == SUBSET ConnShared
 
 NoScript == <<>>
 Sc(a, s, args) == [act |-> a, s |-> s, args |-> args]
@@ -943,6 +950,14 @@ ScriptCrossDelTold == ScriptCrossDel \o << Sc("Store", "s2", <<<<1>>, "add", <<"
 ScriptReAddTold == ScriptTwoOnA \o <<
   Sc("ConnSetBoxes", None, <<"m1", <<>>>>), Sc("Deliver", "s2", <<"Expunge", TRUE>>),
   Sc("ConnSetBoxes", None, <<"m1", <<"A">>>>), Sc("Deliver", "s2", <<"Exists", TRUE>>) >>
+\* prefix: both sessions know m1 and m2 in A; the connector has taken m1 out of A, s2 has been handed the removal and has
+\* not flushed it (beginIdle has to flush it - with EXPUNGE permitted - before responders are pushed past the queue)
+ScriptRemovedTold == ScriptTwoOnA \o <<
+  Sc("ConnSetBoxes", None, <<"m1", <<>>>>), Sc("Deliver", "s2", <<"Expunge", TRUE>>) >>
+\* prefix: as ScriptReAddTold, and a further message has arrived behind the held-back pair (s2 has been handed its EXISTS):
+\* it carries a higher UID than the re-arrival and has to wait for it (popResponders, fix e8273a5)
+ScriptReAddToldArrival == ScriptReAddTold \o <<
+  Sc("Append", "s1", <<"A", "m3", 4>>), Sc("Deliver", "s2", <<"Exists", TRUE>>) >>
 \* F14: s2 sets \Seen (queued to s1); s1 removes \Seen before applying it; the queued "add" lands afterwards
 ScriptF14 == <<
   Sc("Select", "s1", <<"A">>), Sc("Append", "s1", <<"A", "m1", 1>>), Sc("Select", "s2", <<"A">>),
@@ -966,7 +981,7 @@ FreeOld ==
   \/ On("Append") /\ \E s \in Cmdrs, b \in Boxes, m \in Msgs : CmdAppend(s, b, m)
   \/ On("Store") /\ \E s \in Cmdrs : \E P \in PSets(Len(snap[s])) : \E a \in StoreArgs :
                               CmdStore(s, P, a.op, a.F, a.silent, a.asuid)
-  \/ On("Refused") /\ \E s \in Cmdrs, k \in {"StoreRO", "FetchNoPart"} : CmdRefused(s, k)
+  \/ On("Refused") /\ \E s \in Cmdrs, k \in {"StoreRO", "FetchNoPart", "FetchBodyNoPart"} : CmdRefused(s, k)
   \/ On("Expunge") /\ \E s \in Cmdrs : CmdExpunge(s, 1..Len(snap[s]), FALSE)
   \/ On("UidExpunge") /\ \E s \in Cmdrs : \E P \in PSets(Len(snap[s])) : CmdExpunge(s, P, TRUE)
   \/ On("Noop") /\ \E s \in Cmdrs : CmdNoop(s)
@@ -990,7 +1005,7 @@ FreeOld ==
 Free ==
   \/ FreeOld /\ UNCHANGED <<inv, epoch>>
   \/ On("Deliver") /\ \E s \in Sessions : Deliver(s)
-  \/ On("ConnCreateWith") /\ \E m \in Msgs, b \in Boxes : \E F \in SUBSET SharedFlags : \E how \in {"created", "updated"} :
+  \/ On("ConnCreateWith") /\ \E m \in Msgs, b \in Boxes : \E F \in SUBSET ConnShared : \E how \in {"created", "updated"} :
                                   (how = "created" => F # {}) /\ ConnCreateWith(m, b, F, how)
   \/ On("ConnCreateBatch") /\ \E m1, m2 \in Msgs, b \in Boxes : ConnCreateBatch(m1, m2, b)
   \/ On("ConnCreateIgnore") /\ \E m \in Msgs : \E B \in SUBSET Boxes : ConnCreateIgnore(m, B)
